@@ -13,6 +13,7 @@ use crate::refmodel::{self as rf, Q};
 use crate::svm::Store;
 use crate::world::{self, World};
 use fixed::types::I80F48;
+use marginfi_type_crate::constants::{CLOSE_ENABLED_FLAG, EMISSIONS_FLAG_BORROW_ACTIVE, EMISSIONS_FLAG_LENDING_ACTIVE, FREEZE_SETTINGS, PERMISSIONLESS_BAD_DEBT_SETTLEMENT_FLAG, TOKENLESS_REPAYMENTS_ALLOWED, TOKENLESS_REPAYMENTS_COMPLETE};
 use marginfi_type_crate::types::RatePoint;
 use serde_json::json;
 use std::collections::BTreeMap;
@@ -79,6 +80,12 @@ fn sweep(tier: Tier, w: &World, s0: &Store, st: &mut SweepStats) {
                     for &(un, ud) in &utils {
                         for &(asv, lsv) in &svs {
                             for &dt in &dts {
+                              // bank flag words that open special paths elsewhere must not matter to accrual (on a
+                              // sub-product: the middle fee vector and share values)
+                              for &flags in &[0u64, TOKENLESS_REPAYMENTS_ALLOWED, TOKENLESS_REPAYMENTS_ALLOWED | TOKENLESS_REPAYMENTS_COMPLETE, FREEZE_SETTINGS | CLOSE_ENABLED_FLAG | PERMISSIONLESS_BAD_DEBT_SETTLEMENT_FLAG, EMISSIONS_FLAG_BORROW_ACTIVE | EMISSIONS_FLAG_LENDING_ACTIVE] {
+                                if flags != 0 && !(fv.0 == 0.01 && asv == 1.5) {
+                                    continue;
+                                }
                                 let mut s = s0.clone();
                                 let now = s.now;
                                 let asv_fx = I80F48::from_num(asv);
@@ -92,6 +99,7 @@ fn sweep(tier: Tier, w: &World, s0: &Store, st: &mut SweepStats) {
                                     bk.total_asset_shares = a_sh.into();
                                     bk.total_liability_shares = l_sh.into();
                                     bk.last_update = now - dt;
+                                    bk.flags = flags;
                                     let ir = &mut bk.config.interest_rate_config;
                                     ir.zero_util_rate = zero;
                                     ir.hundred_util_rate = hundred;
@@ -108,7 +116,7 @@ fn sweep(tier: Tier, w: &World, s0: &Store, st: &mut SweepStats) {
                                 let forged = s.clone();
                                 let r = act::apply(w, &mut s, &Action::Accrue { b: 0 });
                                 st.evals += 1;
-                                let rep = json!({"model": "C06a", "curve": cname, "fees": [fv.0, fv.1, fv.2, fv.3], "program_fees": pf, "deposits": d_tokens, "util": [un, ud], "asv": asv, "lsv": lsv, "dt": dt});
+                                let rep = json!({"model": "C06a", "bank_flags": flags, "curve": cname, "fees": [fv.0, fv.1, fv.2, fv.3], "program_fees": pf, "deposits": d_tokens, "util": [un, ud], "asv": asv, "lsv": lsv, "dt": dt});
                                 if !r.committed {
                                     *st.classes.entry(format!("accrue:{}:{}", crate::svm::err_name(r.code), cname)).or_insert(0) += 1;
                                     // an accepted curve can never by itself make accrual fail (C18) - overflow at
@@ -201,6 +209,7 @@ fn sweep(tier: Tier, w: &World, s0: &Store, st: &mut SweepStats) {
                                 if !r2.committed || k1 != k2 {
                                     fail("C06.idempotent", "a second accrual at the same timestamp changed the bank".into());
                                 }
+                              }
                             }
                         }
                     }
